@@ -34,7 +34,8 @@ RULE = (
     "coefficient element degree/family/shape/mapping, cell, geometric dimension, integral type, subdomain id, metadata "
     "value (last digits of a float, one array entry in the middle / at the end / in the 9th digit, nested value), "
     "removal of a metadata key, one coefficient/constant used in place of two of the same space (coefficients and "
-    "constants are instances of ufl's classes or of user subclasses of them). non-trivial = a pair that is provably different (data edit, or integrand values differ "
+    "constants are instances of ufl's classes or of user subclasses of them), derivative multi-index / function space of "
+    "an ExternalOperator factor. non-trivial = a pair that is provably different (data edit, or integrand values differ "
     "numerically); distinct = distinct (form, edit)."
 )
 ASSUMPTIONS = [
@@ -48,7 +49,7 @@ CASE_TIMEOUT = {"quick": 20, "thorough": 60}
 OPS = {"arith", "math", "cond", "index", "tensor", "compound", "deriv", "pow", "abs", "var", "sign"}
 PROF = Profile(ops=OPS, leaves={"coef", "const", "lit", "x", "geo", "eye"}, max_rank=2, elements="all", manifolds=True,
                args=((0, "any"), (1, "any")))
-EDITS = ["merge_fields", "merge_fields", "field_mesh", "field_mesh", "integral_mesh", "literal", "literal", "fixed_index", "index_pattern", "index_pattern", "operator", "operator", "swap_operands", "element", "element", "cell", "gdim",
+EDITS = ["bfo_derivatives", "bfo_space", "merge_fields", "merge_fields", "field_mesh", "field_mesh", "integral_mesh", "literal", "literal", "fixed_index", "index_pattern", "index_pattern", "operator", "operator", "swap_operands", "element", "element", "cell", "gdim",
          "itype", "sid", "md_value", "md_value", "md_array", "md_array", "md_key"]
 MDS = [{}, {"quadrature_degree": 2}, {"quadrature_degree": 3, "scheme": "default"}, {"tol": 0.1234567890123},
        {"opts": {"a": 1, "b": [1, 2, 3]}}, {"quadrature_rule": "custom", "points": {"__array__": [3, 1, None, 0]}},
@@ -79,7 +80,13 @@ def cases(draw, tier):
     for _ in range(draw(st.sampled_from([1, 1, 2, 3]))):
         integrals.append({"itype": draw(st.sampled_from(["dx", "dx", "ds"])), "sid": draw_sid(draw), "md": draw(st.sampled_from(MDS)),
                           "mesh": draw(st.integers(0, nmesh - 1)), "expr": L.term(argnames, draw(st.integers(1, 2)))})
-    return {"world": world, "vars": G.vars, "integrals": integrals, "edit": draw(st.sampled_from(EDITS)),
+    edit = draw(st.sampled_from(EDITS))
+    if edit.startswith("bfo_"):
+        # a base form operator (ExternalOperator N(f0; derivatives, function space)) as a factor of the first integrand
+        deg = draw(st.sampled_from([1, 2]))
+        N = ["extop", ["fld", "f0"], [draw(st.integers(0, 2))], ["P", deg, []]]
+        integrals[0]["expr"] = ["mul", N, integrals[0]["expr"]]
+    return {"world": world, "vars": G.vars, "integrals": integrals, "edit": edit,
             "edit_seed": draw(st.integers(0, 10**6)), "noise": draw(st.integers(0, 40)), "env_seed": draw(st.integers(0, 10**6))}
 
 
@@ -197,6 +204,17 @@ def apply_edit(case, rng):
         ix[a], ix[b_] = ix[b_], ix[a]
         itg["expr"] = put(itg["expr"], p, [node[0], node[1], ix])
         return c, "integrand"
+    if e in ("bfo_derivatives", "bfo_space"):
+        ss = sites(c["integrals"][0]["expr"], lambda r: r[0] == "extop")
+        if not ss:
+            return None
+        node = list(get(c["integrals"][0]["expr"], ss[0]))
+        if e == "bfo_derivatives":
+            node[2] = [(node[2][0] + 1 + int(rng.integers(0, 2))) % 3]
+        else:
+            node[3] = ["P", node[3][1] + 1, []] if rng.integers(0, 2) else ["DG", node[3][1], []]
+        c["integrals"][0]["expr"] = put(c["integrals"][0]["expr"], ss[0], node)
+        return c, "bfo"
     if e == "merge_fields":
         # one coefficient (constant) used where two were: the compiler receives one array less
         w = c["world"]
@@ -511,6 +529,12 @@ def check_case(case):
         # the edited field must really occur in the built form (construction may have folded it away)
         provable = [c.ufl_element() for c in form1.coefficients()] != [c.ufl_element() for c in form2.coefficients()] or \
             [a.ufl_element() for a in form1.arguments()] != [a.ufl_element() for a in form2.arguments()]
+    if kind == "bfo":
+        # the operator must have survived construction in both forms (a zero factor folds the product away)
+        from ufl.core.base_form_operator import BaseFormOperator
+        from ufl.corealg.traversal import unique_pre_traversal
+
+        provable = all(any(isinstance(n_, BaseFormOperator) for x in ex_ for n_ in unique_pre_traversal(x)) for ex_ in (ex1, ex2))
     if kind == "merge":
         # provable when both fields occur in the built base form and the kept one in the merged form
         a_, b_ = c2["_merged"]
